@@ -63,7 +63,8 @@ class Ctx:
         self.rng = random.Random(seed)
         self.t0 = time.time()
         self.scratch = tempfile.mkdtemp(prefix="yv-%s-" % prop)
-        atexit.register(lambda: shutil.rmtree(self.scratch, ignore_errors=True))
+        if not os.environ.get("VERIF_KEEP"):
+            atexit.register(lambda: shutil.rmtree(self.scratch, ignore_errors=True))
         self.violations = []       # list of dicts {key, what, replay}
         self.known_printed = []
         self.coverage = {"evaluations": 0, "distinct_nontrivial": 0, "samples": [], "rule": "",
